@@ -12,12 +12,13 @@ Definition patch_commit (w : world) (n : name) : option oid :=
   match cur_state w with Some s => pm_get (s_patches s) n | None => None end.
 
 (* stack manipulation (and refresh, which edits only the tree): every stg command of the
-   model except `new` (creates an identity), `edit` (changes an identity on purpose),
+   model except `new` (creates an identity), `edit` (changes an identity on purpose), `pick`
+   (copies the identity of its source, see C08_pick_identity),
    undo / redo / reset (restore recorded commits, see C08_restore_reuses_commits) and repair *)
 Definition manip (c : cmd) : bool :=
   match c with
-  | CNew _ _ _ | CEdit _ _ _ | CSquash _ _ _ _ | CUndo _ _ | CRedo _ _ | CReset _ _ _ | CRepair
-  | GEdit _ _ | GCommit _ _ | GAmend _ _ | GResetHard _ | GMerge _ => false
+  | CNew _ _ _ | CEdit _ _ _ | CSquash _ _ _ _ | CPick _ _ _ | CUndo _ _ | CRedo _ _ | CReset _ _ _ | CRepair
+  | GEdit _ _ | GCommit _ _ | GAmend _ _ | GResetHard _ | GMerge _ | GConfigApc _ => false
   | _ => true
   end.
 
